@@ -11,6 +11,7 @@
 import NemoVerif.Drive.Common
 import NemoVerif.Models.Layout
 import NemoVerif.Models.ErrWrap
+import NemoVerif.Models.NumberedLines
 
 namespace NemoVerif.Drive.C13
 open Lean NemoVerif NemoVerif.Drive
@@ -86,6 +87,15 @@ def handle (op : String) (j : Json) : Except String Json := do
     match ErrWrap.wrapCur exc version path lines with
     | .returned => pure (Json.mkObj [("returned", .bool true)])
     | .raised cls msg => pure (Json.mkObj [("raised", .str cls), ("msg", safeStr msg)])
+  | "numbered" =>
+    let la ← (← j.getObjVal? "lines").getArr?
+    let lines ← la.toList.mapM fun x => x.getStr?
+    match NumberedLines.numbered (lines.map String.toList) with
+    | .error .indexError => pure (Json.mkObj [("err", .str "IndexError")])
+    | .error .typeError => pure (Json.mkObj [("err", .str "TypeError")])
+    | .ok recs => pure (Json.mkObj [("ok", Json.arr (recs.map fun r =>
+        Json.arr #[safeStr (String.ofList r.text), Json.num (JsonNumber.fromNat r.indentation),
+          match r.comment with | none => .null | some c => safeStr (String.ofList c)]).toArray)])
   | _ => throw s!"unknown op C13.{op}"
 
 end NemoVerif.Drive.C13
